@@ -201,7 +201,99 @@ def run_unify(jobname, job, prop, tier, seed, wd, acc):
                          "events": len(lines), "states": res["states"], "tlc_s": round(res["wall"], 1)})
 
 
+BIP_CFG = """SPECIFICATION Spec
+CONSTANTS
+  AtomCodes <- AtomCodesDef
+  FmtPieces <- FmtPiecesDef
+INVARIANTS
+  Consumed
+CHECK_DEADLOCK FALSE
+"""
+CMP_OPS = ("equal", "less_than", "less_than_or_equal", "greater_than", "greater_than_or_equal")
+
+
+def bip_props(f, case, malformed):
+    """Which properties does a (recorded) built-in call speak about?"""
+    if f in CMP_OPS:
+        return {"C14"}
+    if f == "append":
+        return {"C16", "C15"} if malformed else {"C16"}
+    if f in ("include", "exclude"):
+        return {"C17", "C15"} if malformed else {"C17"}
+    if f in ("count", "functor"):
+        return {"C17"}
+    if f in ("print", "print_list", "nl"):
+        return {"C04"}
+    if f == "unify":
+        fns = set(re.findall(r'"k": ?"fn", ?"s": ?"(\w+)"', json.dumps(case)))
+        props = {"C13"}
+        if fns & {"add", "subtract", "multiply", "divide"}:
+            props.add("C12")
+        if "join" in fns:
+            props.add("C17")
+        return props
+    return set()
+
+
+def run_bip(jobname, job, prop, tier, seed, wd, acc):
+    """Random calls of the built-in predicates / functions recorded from the real engine, validated against Builtins.tla."""
+    os.makedirs(wd, exist_ok=True)
+    runs = job["runs"][tier]
+    trace = os.path.join(wd, "btrace.ndjson")
+    p = subprocess.run([vcheck.HARNESS_BIN, "gen-bip-trace", trace, str(seed), str(runs)], cwd=wd,
+                       stdout=subprocess.PIPE, stderr=subprocess.PIPE, text=True)
+    if p.returncode != 0:
+        raise vcheck.ToolError("gen-bip-trace failed: %s" % p.stderr[-1000:])
+    lines = open(trace).read().split("\n")
+    res = validate(trace, wd, job.get("timeout", {}).get(tier, 1800), module="TraceBuiltins", cfg=BIP_CFG)
+    if res["violated"] or "validated" not in res:
+        raise vcheck.ToolError("trace validation of the built-in calls ended without a verdict (exit %d, %s)" % (res["rc"], res["out"]))
+    nok, nskip, nrej = res["validated"][:3]
+    counts = {}
+    for line in open(res["out"], errors="replace"):
+        if line.startswith('<<"COUNTS"'):
+            m = re.search(r'<<"COUNTS", (".*")>>', line)
+            if m:
+                counts = json.loads(json.loads(m.group(1)))
+    vcheck.log("trace validation %s: %d calls, %d validated, %d outside the claim, %d rejected, %.1fs" % (jobname, runs, nok, nskip, nrej, res["wall"]))
+    for line in res["rejections"]:
+        m = re.search(r'kind \|-> "([^"]*)"', line); kind = m.group(1) if m else "?"
+        m = re.search(r'f \|-> "([^"]*)"', line); f = m.group(1) if m else "?"
+        m = re.search(r'at \|-> (\d+)', line); at = int(m.group(1)) if m else 0
+        malformed = "malformed |-> TRUE" in line
+        m = re.search(r'case \|-> ("(?:[^"\\]|\\.)*")', line)
+        case = json.loads(json.loads(m.group(1))) if m else {"t": "btrace", "line": at}
+        if prop in bip_props(f, case, malformed):
+            ev = lines[at - 1] if 0 < at <= len(lines) else ""
+            acc["bad"].append({"job": jobname, "case": case,
+                               "obs": {"prop": prop, "kind": "trace-" + kind,
+                                       "detail": "recorded call of %s differs from Builtins.tla in `%s` (trace line %d): engine logged %s" % (f, kind, at, ev[:300])}})
+    # evaluations of this property: validated calls of its built-ins (an `=` with a function term counts for C13; C12 / C17 by the function)
+    mine = 0
+    for f, n in counts.items():
+        if f == "unify":
+            mine += n if prop == "C13" else 0
+        elif prop in bip_props(f, {}, False):
+            mine += n
+    if prop in ("C12", "C17") and "unify" in counts:
+        # recount from the trace: validated `=` calls with an arithmetic / join function
+        want = {"C12": ("add", "subtract", "multiply", "divide"), "C17": ("join",)}[prop]
+        mine += sum(1 for l in lines if '"f":"unify"' in l and any('"s":"%s"' % w in l for w in want))
+    acc["evaluations"] += mine
+    acc["kinds"]["%s:bip-trace-accepted" % prop] += mine
+    for i in range(mine):
+        acc["distinct"].add("btrace-%s-%d-%d" % (jobname, seed, i))
+    if len(acc["samples"]) < 4:
+        acc["samples"].append({"job": jobname, "recorded_calls": [json.loads(l) for l in lines[:6] if l]})
+    return dict(states=res["states"], transitions=res["transitions"], traces=mine,
+                summary={"job": jobname, "module": "TraceBuiltins", "calls_recorded": runs, "calls_validated": nok,
+                         "calls_outside_claim": nskip, "calls_rejected": nrej, "validated_by_builtin": counts,
+                         "states": res["states"], "tlc_s": round(res["wall"], 1)})
+
+
 def run(jobname, job, prop, tier, seed, wd, acc):
+    if job.get("module") == "TraceBuiltins":
+        return run_bip(jobname, job, prop, tier, seed, wd, acc)
     if job.get("module") == "TraceUnify":
         return run_unify(jobname, job, prop, tier, seed, wd, acc)
     os.makedirs(wd, exist_ok=True)
